@@ -48,6 +48,58 @@ type Proc struct {
 
 func (p *Proc) HostPort() string { return fmt.Sprintf("127.0.0.1:%d", p.Port) }
 
+// byAddr maps "127.0.0.1:port" to the process listening there (filled when the port becomes known).
+var byAddr sync.Map
+
+// ProcAt returns the spawned process that listens at addr, if any.
+func ProcAt(addr string) *Proc {
+	if v, ok := byAddr.Load(addr); ok {
+		return v.(*Proc)
+	}
+	return nil
+}
+
+// CPUTicks is the CPU time (user+system, clock ticks) the process has used so far; -1 if unknown.
+func (p *Proc) CPUTicks() int64 {
+	if p.Cmd == nil || p.Cmd.Process == nil {
+		return -1
+	}
+	b, err := os.ReadFile(fmt.Sprintf("/proc/%d/stat", p.Cmd.Process.Pid))
+	if err != nil {
+		return -1
+	}
+	// fields after the parenthesised command name
+	i := strings.LastIndexByte(string(b), ')')
+	if i < 0 {
+		return -1
+	}
+	f := strings.Fields(string(b[i+1:]))
+	if len(f) < 13 {
+		return -1
+	}
+	var ut, st int64
+	fmt.Sscan(f[11], &ut)
+	fmt.Sscan(f[12], &st)
+	return ut + st
+}
+
+// BusyFunc returns a function telling whether the process has used CPU time since the previous
+// call: a watchdog that expires while the server is working (walking a huge tree on a loaded
+// machine) is re-armed; one that expires on an idle server is a verdict.
+func (p *Proc) BusyFunc() func() bool {
+	last := p.CPUTicks()
+	return func() bool {
+		now := p.CPUTicks()
+		if now < 0 || last < 0 {
+			last = now
+			return false
+		}
+		busy := now-last >= 5 // at least 50 ms of CPU within the last watchdog period
+		last = now
+		return busy
+	}
+}
+
 var seq int
 
 func SpawnWorker(cfg worker.Config, o Opt) (*Proc, error) {
@@ -95,6 +147,7 @@ func SpawnWorker(cfg worker.Config, o Opt) (*Proc, error) {
 		return nil, fmt.Errorf("worker start failed: %v %s (stderr: %s)", err, r.Err, p.Stderr())
 	}
 	p.Port, p.Addr = r.Port, r.Addr
+	byAddr.Store(p.HostPort(), p)
 	return p, nil
 }
 
@@ -268,10 +321,12 @@ func SpawnBin(bin string, args []string, o Opt, cwd string, waitListen bool) (*P
 		b, _ := os.ReadFile(outPath)
 		if m := portRe.FindSubmatch(b); m != nil {
 			fmt.Sscan(string(m[1]), &p.Port)
+			byAddr.Store(p.HostPort(), p)
 			return p, nil
 		}
 		if m := anyPortRe.FindSubmatch(b); m != nil {
 			fmt.Sscan(string(m[1]), &p.Port)
+			byAddr.Store(p.HostPort(), p)
 			return p, nil
 		}
 		if !p.Alive() {
